@@ -218,7 +218,11 @@ def check_decode_binary_inputs(raw, ctx=None):
     import base64
     rep = {'decode_bytes': rm.tag(raw)}
     for enc in (raw, bytearray(raw), 'b' + base64.b64encode(raw).decode()):
-        dec = packet.Packet(encoded_packet=enc)
+        try:
+            dec = packet.Packet(encoded_packet=enc)
+        except Exception as e:      # noqa
+            raise V('decode-raised', 'binary-input|' + type(enc).__name__ + (
+                '|empty' if not raw else ''), 'decoding %r raised %r' % (enc, e), rep)
         if dec.packet_type != 4 or not dec.binary or bytes(dec.data) != raw:
             raise V('binary-decode-other-type', type(enc).__name__,
                     'decoded %r as type=%r binary=%r data=%r' % (
